@@ -105,6 +105,11 @@ def i_binop(ex, fr, ins):
                 "<=": lambda: a <= b, ">": lambda: a > b, ">=": lambda: a >= b}[op]()
     if k == "float":
         fa, fb = float(a), float(b)
+        if op == "/" and fb == 0.0:
+            # IEEE-754 semantics of Go floats: no panic
+            if fa == 0.0 or fa != fa:
+                return float("nan")
+            return float("inf") if fa > 0 else float("-inf")
         return {"+": lambda: fa + fb, "-": lambda: fa - fb, "*": lambda: fa * fb, "/": lambda: fa / fb,
                 "==": lambda: fa == fb, "!=": lambda: fa != fb, "<": lambda: fa < fb,
                 "<=": lambda: fa <= fb, ">": lambda: fa > fb, ">=": lambda: fa >= fb}[op]()
